@@ -444,6 +444,19 @@ def half_connection_clock(cx, iid):
         cx.followed_by(inst, ff, [(Loc(0, -1), "entry of fill_flush_alloc")], [l for l, _ in ws], "refill time not recorded", "time_last_flushed = Some(now)")
 
 
+def saturated_u32_of(v):
+    """X when the printed expression v is `X saturated to u32` in one of the spellings a maintainer would use:
+    min(X, u32::MAX as usize) as u32 (either operand order) or u32::try_from(X).unwrap_or(u32::MAX)"""
+    MAXU = r"core::num::<impl u32>::MAX"
+    for rx in (r"cast<u32>\(Ord::min\((.*),cast<usize>\(%s\)\)\)" % MAXU,
+               r"cast<u32>\(Ord::min\(cast<usize>\(%s\),(.*)\)\)" % MAXU,
+               r"Result::unwrap_or\((?:u32::try_from|TryFrom::try_from|TryInto::try_into)\((.*)\),%s\)" % MAXU):
+        m = re.fullmatch(rx, v)
+        if m:
+            return m.group(1)
+    return None
+
+
 def advertised_limits(cx, inst, fields):
     """T7: what an endpoint advertises in its SYN / SYN-ACK is its configured limit (saturated to u32):
     the peer clamps its rate / packet sizes / outstanding bytes to the advertised numbers, so an
@@ -459,7 +472,8 @@ def advertised_limits(cx, inst, fields):
                 for f in fields:
                     v = show(bb.operand_expr(rv["ops"][rv["fields"].index(f)]))
                     inst.site(bb, loc, "%s.%s = %s" % (adt, f, v[:90]))
-                    if not re.fullmatch(r"cast<u32>\(Ord::min\((.*\.endpoint_config\.%s,cast<usize>\(core::num::<impl u32>::MAX\)|cast<usize>\(core::num::<impl u32>::MAX\),.*\.endpoint_config\.%s)\)\)" % (f, f), v):
+                    src = saturated_u32_of(v)
+                    if src is None or not re.fullmatch(r".*\.endpoint_config\.%s" % f, src):
                         inst.violation(bb.path, "advertised " + f, "the advertised %s is `%s`, not the configured one" % (f, v[:120]), at=bb.span_at(loc))
         if not hit:
             inst.violation(bb.path, adt, "%s literal not found (anchor)" % adt)
@@ -696,7 +710,7 @@ def loss_rate_shape(cx, iid):
     rate stays pinned near the minimum for as long as no further loss occurs."""
     R = cx.R
     import struct
-    with cx.instance(iid, "T7 SHAPE + T9", "compute_loss_rate = W_tot / max(I_tot0, I_tot1) over the RFC 5348 weights; eight weights 1,1,1,1,0.8,0.6,0.4,0.2", floor=4) as inst:
+    with cx.instance(iid, "T7 SHAPE + T9", "compute_loss_rate = W_tot / max(I_tot0, I_tot1) over the RFC 5348 weights; eight weights 1,1,1,1,0.8,0.6,0.4,0.2", floor=3) as inst:
         c = R.const("loss_rate::LossIntervalQueue::WEIGHTS")
         raw = bytes.fromhex(c.get("bytes_hex", ""))
         ws = [struct.unpack("<d", raw[i:i + 8])[0] for i in range(0, len(raw), 8)]
@@ -712,36 +726,93 @@ def loss_rate_shape(cx, iid):
             inst.violation(b.path, "loss rate", "the loss event rate for more than one interval is %s, expected W_tot / max(I_tot0, I_tot1)" % multi)
             return
         wv, av, bv = m.groups()
-        W = r"half_connection::loss_rate::LossIntervalQueue::WEIGHTS"
-        acc = {}
-        for v in (wv, av, bv):
-            n = int(v[3:])
-            forms = sorted({show(b.rvalue_expr(node["rv"])) for loc, kind, node in b.defs.get(n, []) if kind == "assign"} - {"0.0"})
-            acc[v] = forms
-            inst.site(b, None, "%s accumulates %s" % (v, [f[:110] for f in forms]))
-        IDX = r"Range::next\(var\d+\)@Some\.0"
-        ok_w = len(acc[wv]) == 1 and re.fullmatch(r"add\((%s\[%s\],%s|%s,%s\[%s\])\)" % (W, IDX, wv, wv, W, IDX), acc[wv][0])
-        t0 = r"mul\((cast<f64>\(arg1\.entries\[(%s)\]\.length\),%s\[(%s)\]|%s\[(%s)\],cast<f64>\(arg1\.entries\[(%s)\]\.length\))\)" % (IDX, W, IDX, W, IDX, IDX)
-        def classify(forms, v):
-            if len(forms) != 1:
+        # Each accumulator is read as a sum over a half-open range of the loop variable i:
+        #   acc += l[i + a] * w[i + b]   for i in lo..hi      ==   sum over entries e in [lo+a, hi+a) of l_e * w_(e-d), d = a-b
+        # so that fused / re-indexed loops compare equal to the two loops of RFC 5348 5.4.
+        from rules import poly, poly_str
+        from fractions import Fraction
+
+        def lin(e):
+            """(iterator local K, constant offset) when e == Range::next(varK)@Some.0 + c"""
+            try:
+                pl = poly(e)
+            except Exception:
                 return None
-            f = forms[0]
-            m0 = re.fullmatch(r"add\((.*),%s\)|add\(%s,(.*)\)" % (v, v), f)
-            if not m0:
+            K, off = None, 0
+            for mono, co in pl.items():
+                if mono == ():
+                    off = co
+                    continue
+                mm = re.fullmatch(r"Range::next\(var(\d+)\)@Some\.0", mono[0]) if len(mono) == 1 else None
+                if not mm or co != 1 or K is not None:
+                    return None
+                K = int(mm.group(1))
+            if K is None or Fraction(off).denominator != 1:
                 return None
-            term = m0.group(1) or m0.group(2)
-            if re.fullmatch(r"mul\(cast<f64>\(arg1\.entries\[(%s)\]\.length\),%s\[\1\]\)" % (IDX, W), term) or re.fullmatch(r"mul\(%s\[(%s)\],cast<f64>\(arg1\.entries\[\1\]\.length\)\)" % (W, IDX), term):
-                return "same"
-            if re.fullmatch(r"mul\(cast<f64>\(arg1\.entries\[(%s)\]\.length\),%s\[sub\(\1,1\)\]\)" % (IDX, W), term) or re.fullmatch(r"mul\(%s\[sub\((%s),1\)\],cast<f64>\(arg1\.entries\[\1\]\.length\)\)" % (W, IDX), term):
-                return "shifted"
+            return K, int(off)
+
+        def rng_of(K):
+            for loc, kind, node in b.defs.get(K, []):
+                ce = b.call_expr(node) if kind == "call" else b.rvalue_expr(node["rv"]) if kind == "assign" else None
+                if ce and ce[0] == "call" and ce[1].endswith("into_iter") and ce[2] and ce[2][0][0] == "agg" and ce[2][0][1] == "Range":
+                    return ce[2][0][2][0], ce[2][0][2][1]
             return None
-        kinds = sorted([str(classify(acc[av], av)), str(classify(acc[bv], bv))])
-        if not ok_w or kinds != ["same", "shifted"]:
-            inst.violation(b.path, "interval sums", "the weighted interval sums are not I_tot0 = sum l_i w_i and I_tot1 = sum l_i w_(i-1) with W_tot = sum w_i (%s, %s)" % (kinds, acc[wv]))
-        rngs = sorted(show(b.call_expr(t)) for l, t in b.calls("I::into_iter") if "Range{" in show(b.call_expr(t)))
-        inst.site(b, None, "ranges: %s" % rngs)
-        if rngs != ["I::into_iter(Range{0,sub(VecDeque::len(arg1.entries),1)})", "I::into_iter(Range{1,VecDeque::len(arg1.entries)})"]:
-            inst.violation(b.path, "interval ranges", "the two sums run over %s, expected 0..n-1 and 1..n" % rngs)
+
+        def index_of(pe, what):
+            """index expression of entries[..].length / WEIGHTS[..]"""
+            if pe[0] == "call" and pe[1] in ("f64::from", "From::from", "<f64 as From<u32>>::from") and len(pe[2]) == 1:
+                pe = pe[2][0]
+            if pe[0] == "cast":
+                pe = pe[2]
+            if pe[0] != "proj":
+                return None
+            els = pe[2]
+            if what == "len" and pe[1] == ("arg", 1) and len(els) == 3 and els[0] == "entries" and isinstance(els[1], tuple) and els[2] == "length":
+                return els[1][1]
+            if what == "w" and pe[1][0] == "const" and str(pe[1][1]).endswith("LossIntervalQueue::WEIGHTS") and len(els) == 1 and isinstance(els[0], tuple):
+                return els[0][1]
+            return None
+
+        def shift(e, c):
+            return poly_str(("bin", "Add", e, ("const", str(c), "usize", None))) if c else poly_str(e)
+
+        def read_sum(v, weighted):
+            n = int(v[3:])
+            ups = [b.rvalue_expr(node["rv"]) for loc, kind, node in b.defs.get(n, []) if kind == "assign"]
+            ups = [u for u in ups if show(u) != "0.0"]
+            if len(ups) != 1 or ups[0][0] != "bin" or ups[0][1] != "Add":
+                return None
+            term = ups[0][3] if ups[0][2] == ("var", n) else ups[0][2] if ups[0][3] == ("var", n) else None
+            if term is None:
+                return None
+            if not weighted:
+                wi = index_of(term, "w")
+                lw = lin(wi) if wi is not None else None
+                r = rng_of(lw[0]) if lw else None
+                return ("w", shift(r[0], lw[1]), shift(r[1], lw[1])) if r else None
+            if term[0] != "bin" or term[1] != "Mul":
+                return None
+            for x, y in ((term[2], term[3]), (term[3], term[2])):
+                li, wi = index_of(x, "len"), index_of(y, "w")
+                if li is None or wi is None:
+                    continue
+                ll, lw = lin(li), lin(wi)
+                if not ll or not lw or ll[0] != lw[0]:
+                    return None
+                r = rng_of(ll[0])
+                if not r:
+                    return None
+                return (ll[1] - lw[1], shift(r[0], ll[1]), shift(r[1], ll[1]))
+            return None
+
+        N = "VecDeque::len(arg1.entries)"
+        sw = read_sum(wv, False)
+        sa, sb = read_sum(av, True), read_sum(bv, True)
+        inst.site(b, None, "W_tot = sum w over %s; interval sums (shift d, first entry, end entry): %s, %s" % (sw, sa, sb))
+        want_w = ("w", "0", "-1 + " + N)
+        want = sorted([(0, "0", "-1 + " + N), (1, "1", N)])
+        if sw != want_w or sa is None or sb is None or sorted([sa, sb]) != want:
+            inst.violation(b.path, "interval sums", "the weighted interval sums are not I_tot0 = sum_{e=0}^{n-2} l_e w_e and I_tot1 = sum_{e=1}^{n-1} l_e w_(e-1) with W_tot = sum_{i=0}^{n-2} w_i: got W %s, I %s and %s" % (sw, sa, sb))
 
 
 def active_timeout_sweep(cx, iid):
@@ -761,3 +832,28 @@ def active_timeout_sweep(cx, iid):
             inst.site(b, l, lab)
         if not pushes:
             inst.violation(b.path, "Error(Timeout)", "the server no longer reports active timeouts (anchor)")
+
+
+def config_verbatim(cx, iid):
+    """T9: the limits an endpoint enforces are the ones the application configured: Server::bind / Client::connect store
+    the config argument itself (not a rebuilt or adjusted copy) and nothing writes it afterwards."""
+    R = cx.R
+    with cx.instance(iid, "T9 WHO-MAY-WRITE (config)", "Server::bind and Client::connect store the application's config unchanged; no function writes self.config afterwards", floor=2) as inst:
+        for fn, adt in (("server::Server::bind", "Server"), ("client::Client::connect", "Client")):
+            b = R.body(fn)
+            found = False
+            for loc, st in b.assigns():
+                rv = st["rv"]
+                if rv["k"] == "agg" and rv.get("adt", "").endswith("::" + adt) and "config" in (rv.get("fields") or []):
+                    v = show(b.operand_expr(rv["ops"][rv["fields"].index("config")]))
+                    inst.site(b, loc, "%s.config = %s" % (adt, v))
+                    found = True
+                    if v != "arg2":
+                        inst.violation(b.path, "%s.config" % adt, "%s stores `%s` as its configuration instead of the config it was given: the limits enforced are no longer the ones configured" % (fn.split("::")[-1], v[:160]), at=b.span_at(loc))
+            if not found:
+                inst.violation(b.path, "%s.config" % adt, "construction of %s with its config not found (anchor)" % adt)
+        for b in R.all_bodies():
+            if not (b.path.startswith("server::Server::") or b.path.startswith("client::Client::")):
+                continue
+            for loc, node, ps in b.field_writes(r"arg1\.config(\..*)?"):
+                inst.violation(b.path, "write of " + ps, "%s rewrites the endpoint's configuration after construction" % b.path.split("::")[-1], at=b.span_at(loc))
